@@ -37,6 +37,10 @@ CLAIMED = {
             "deterministic simulation: 1–3 simulated tasks cycle real MemoryInstances through a simulated pool (dirty hand-out, reset on acquire) and run seeded histories of growth / access / copy / reset / snapshot+rollback / == on them, checked operation by operation against a sparse flat 64 MiB reference model",
             "Seeded search over pool lives and operation histories (≤ 64 operations per history, 2 % of the runs at the 64 MiB limit); after every operation Ok/Err, bytes read, zero content of newly allocated heap, overlap refusal, the HP register and a sampled sweep of all region borders are compared with the flatmem model, a fresh twin instance shadows every reused instance, and rollbacks are compared with the snapshot. Sampling, not enumeration: a clean batch is evidence, not proof.",
             "Trusted: the ~300-line flatmem model (accessibility rule end ≤ stack_hwm ∨ start ≥ hp, zero on (re)exposure), the pool discipline copied from Interpreter::init_inner (reset + HP := VM_MAX_RAM), the hooked OwnershipRegisters constructor. Empty ranges strictly inside the gap and ownership refusals are not judged. Known finding F-4 (collect_rollback_data panics when the snapshot's stack extent is above the current one) is listed in known_findings.json."),
+    "C07": ("da", "DESIGN.md §6 C07, §4.5",
+            "deterministic simulation: seeded transaction streams compressed into one fault-injecting registry context (failing / pending / cancelled calls, key wrap-around, eviction, rollback and retry), decompressed block-wise against versioned snapshots in a seeded poll interleaving, judged field by field against the skip/restore contract",
+            "Seeded search over streams of 8–64 transactions of all six kinds sharing one registry whose key cursors wrap within the run; every acknowledged transaction is decompressed against the snapshot of its block and compared (kind, witnesses, predicate_gas_used, all fields with the 23 compress(skip) field sites defaulted or restored, canonical bytes, id). Sampling, not enumeration: a clean batch is evidence, not proof.",
+            "Trusted: the simulator's registry (eviction policy, keep-keys per block, default-key shortcut), its chain tables and its context-side decompression of Coin/Message/Mint (these impls live in the embedder, not in this repository), the hand-written expected(t) table of skip sites, the (k+1) mod (2^24-1) successor model, postcard."),
 }
 
 SMT_NOTE = "Trusted: the ~150-line compact-SMT reference (root/prove/verify by recursion on the bit index), SimKV's crash model (one atomic batch per completed tree operation), SHA-256 from the sha2 crate, collision resistance."
